@@ -8,7 +8,7 @@ from ..spec import to_statechart
 
 PROP = 'C20'
 LEVEL = 'exploration'
-BUDGET = {'quick': 2400, 'thorough': 48000}
+BUDGET = {'quick': 9600, 'thorough': 160000}
 RULE = ('cases = small deterministic chart (may reach a final state), runner options (interval, '
         'execute_all), 1-3 client scripts over queue(ev[,delay]) / pause / unpause / stop / '
         'advance clock / sleep with a final stop() by the main client, and a schedule choice '
@@ -21,7 +21,7 @@ RULE = ('cases = small deterministic chart (may reach a final state), runner opt
         'execute_all); before_run/after_run exactly once; every queued uid consumed at most once '
         'and consumed + still pending == queued, in the order of a queue model fed with the '
         'linearised calls; after pause() returned at most one cycle starts before the next '
-        'unpause/stop; stop() returns, the thread is dead and nothing executes afterwards; a '
+        'unpause() (a stop() in between included); stop() returns, the thread is dead and nothing executes afterwards; a '
         'final statechart ends the runner by itself. Non-trivial = a client operation '
         'interleaved inside a runner cycle, or a pause/stop landing between the wait gate and '
         'the cycle start; distinct = sha1(scripts, consumed schedule prefix).')
@@ -278,15 +278,24 @@ def oracle(case):
     alive = [x for x in log if x[0] == 'alive-after-stop']
     if alive and alive[-1][1]:
         viol.append(V('thread-alive-after-stop'))
-    # ---- pause: at most one cycle starts after pause() returned, before the next unpause/stop
+    # ---- pause: at most one cycle starts after pause() returned, before the next unpause()
     i = 0
     while i < len(log):
         x = log[i]
         if x[0] == 'op-return' and x[2] == 'pause':
+            # an unpause() overlapping this pause() call may take effect after it: ambiguous
+            k = i - 1
+            while k >= 0 and not (log[k][0] == 'op-call' and log[k][1] == x[1]
+                                  and log[k][2] == 'pause'):
+                k -= 1
+            if any(y[0] in ('op-call', 'op-return') and y[2] == 'unpause' for y in log[k:i]):
+                i += 1
+                continue
             cycles = 0
             j = i + 1
-            while j < len(log) and not (log[j][0] == 'op-call' and log[j][2] in (
-                    'unpause', 'stop', 'final-stop')):
+            # the window is closed by unpause() only: stop() on a paused runner must not let it
+            # run a further cycle either
+            while j < len(log) and not (log[j][0] == 'op-call' and log[j][2] == 'unpause'):
                 if log[j][0] == 'before_execute':
                     cycles += 1
                 j += 1
@@ -308,9 +317,9 @@ def oracle(case):
         if x[0] == 'queue-enter':
             ev[x[1]] = {'due': x[4] + (x[3] or 0), 'hi': x[4] + (x[3] or 0), 'delay': x[3] or 0,
                         'enter': pos, 'exit': None, 'uid': x[1]}
+            if exec_enter is not None or any(ev[u]['exit'] is None for u in pending):
+                any_overlap = True      # overlaps an execute_once or another queue() call
             pending.append(x[1])
-            if exec_enter is not None:
-                any_overlap = True
         elif x[0] == 'queue-exit':
             ev[x[1]]['exit'] = pos
             # the interpreter's time may have moved while the call was in progress: the due time
